@@ -274,6 +274,8 @@ void Runner::on_clock(Thread *t, int64_t msv) { octx[(size_t) t->tid].last_clock
 void Runner::on_kill(Thread *t, int pid, int sig, Proc *target) {
   const char *what = sig == SIGTERM ? "term" : sig == SIGKILL ? "kill" : "other";
   const Op &op = plan.ops[(size_t) t->op];
+  if ((op.kind == OP_TERMINATE && sig != SIGTERM) || (op.kind == OP_KILL && sig != SIGKILL))
+    viol("C07", "wrong-signal", fmt("op=%s/sig=%d", op_name[op.kind], sig), fmt("%s sent signal %d", op_name[op.kind], sig), t->op);
   if (pid <= 0) {
     viol("C06", "signal-to-nonpositive-pid", fmt("op=%s/pid=%d/sig=%s", op_name[op.kind], pid, what),
          fmt("kill(%d, %d) issued by the library", pid, sig), t->op);
